@@ -61,6 +61,8 @@ class Interp:
         if isinstance(e, ast.Name):
             if e.id in self.env:
                 return self.env[e.id]
+            if e.id in getattr(self, "locals_", ()):
+                raise Raised(f"UnboundLocalError: {e.id}")     # a local of the interpreted function read before any assignment
             raise AnalysisError(f"slice interpreter: unknown name {e.id}")
         if isinstance(e, ast.IfExp):
             return self.expr(e.body) if self.expr(e.test) else self.expr(e.orelse)
@@ -199,16 +201,26 @@ class SliceObj:
         self.start, self.stop, self.step = start, stop, step
 
 
+_PY_ERRORS = (TypeError, ZeroDivisionError, IndexError, KeyError, AttributeError)
+
+
+def _stored_names(fn: Fn):
+    return {n.id for n in ast.walk(fn.node) if isinstance(n, ast.Name) and isinstance(n.ctx, ast.Store)}
+
+
 def run_slice(fn: Fn, start, stop, step) -> Tuple[str, Any]:
     """('pipeline', Pipeline) | ('raise', text)"""
     ps = fn.positional_params
     env = {ps[0]: Symbolic("SRC"), ps[1]: start, ps[2]: stop, ps[3]: step, "maxsize": sys.maxsize, "ops": "OPS",
            "TypeError": "TypeError"}
     it = Interp(env)
+    it.locals_ = _stored_names(fn)
     try:
         it.block([s for s in fn.node.body])
     except Raised as r:
         return "raise", str(r)
+    except _PY_ERRORS as r:     # the interpreter mirrors Python on ints / None: the real code raises the same error
+        return "raise", f"{type(r).__name__}: {r}"
     except Returned as r:
         if not isinstance(r.value, Pipeline):
             raise AnalysisError("slice_ does not return source.pipe(...)")
@@ -221,10 +233,13 @@ def run_getitem(fn: Fn, key) -> Tuple[str, Any]:
     env = {ps[0]: Symbolic("SRC"), ps[1]: key, "isinstance": "isinstance", "slice": "slice", "int": "int",
            "TypeError": "TypeError"}
     it = Interp(env)
+    it.locals_ = _stored_names(fn)
     try:
         it.block(fn.node.body)
     except Raised as r:
         return "raise", str(r)
+    except _PY_ERRORS as r:
+        return "raise", f"{type(r).__name__}: {r}"
     except Returned as r:
         v = r.value
         if isinstance(v, tuple) and v[0] == "SLICED":
